@@ -31,7 +31,7 @@ class StateInfo:
         return tuple(sorted(self.fid))
 
 
-def check_recipe(recipe, U, envs, part, pid, extra_check=None, tol=None, describe=None):
+def check_recipe(recipe, U, envs, part, pid, extra_check=None, tol=None, describe=None, compare=True):
     """Type by L, build on the real API, compare in every environment.
 
     Returns (StateInfo-tuple or None). Violations are recorded in `part`.
@@ -97,6 +97,9 @@ def check_recipe(recipe, U, envs, part, pid, extra_check=None, tol=None, describ
     for env, ctx, lt in zip(envs, ctxs, lts):
         if lt is None:
             continue
+        if not compare:
+            nontrivial = True
+            continue
         try:
             diff = L.compare_lt_obj(lt, obj, U, ctx, tol)
         except Ambiguous:
@@ -134,20 +137,21 @@ def check_recipe(recipe, U, envs, part, pid, extra_check=None, tol=None, describ
         elif lt.cond:
             nontrivial = True
     if extra_check is not None:
-        extra_check(recipe, obj, lt0, part)
+        if extra_check(recipe, obj, lts, ctxs, envs, part, U) == "VIOLATION":
+            return ("VIOLATION", recipe)
     part.count("state_visits")
     part.outcome((tuple(obj.ufl_shape), tuple(sorted(lt0.fid.items())), type(obj).__name__))
     return (recipe, lt0.shape, lt0.fid, lt0.cond, key, nontrivial)
 
 
-def run_level(recipes, U, envs, pid, run, seed=0, extra_check=None, tol=None, sample_every=0):
+def run_level(recipes, U, envs, pid, run, seed=0, extra_check=None, tol=None, sample_every=0, compare=True):
     """Check a list of candidate recipes in parallel; returns list of new state tuples."""
 
     def work(chunk):
         part = Part()
         out = []
         for r in chunk:
-            res = check_recipe(r, U, envs, part, pid, extra_check, tol)
+            res = check_recipe(r, U, envs, part, pid, extra_check, tol, compare=compare)
             if res is None:
                 continue
             if res[0] == "VIOLATION":
